@@ -20,7 +20,7 @@
 (*   on_result (+ post-processing)                     Post                *)
 (***************************************************************************)
 EXTENDS Naturals, Sequences, TLC
-CONSTANTS MaxGen,      \* configured maximum of generations (positive)
+CONSTANTS MaxGen,      \* configured maximum of generations
           InitMax,     \* initial.max_size
           MaxPolls,    \* bound on quota polls inside one construction / generation (model bound only)
           GenSlack     \* 0 = as documented; 1 = what the code does: the generation counter consulted by the MaxGeneration
@@ -36,7 +36,12 @@ VARIABLES pc,          \* pre | init | build | loopq | gen | post | done
           result       \* none | ok | err
 vars == <<pc, pop, gen, idx, quota, term, sawTerm, polls, result>>
 
-Terminated == term \/ gen >= MaxGen + GenSlack
+\* the generation limit as the criterion sees it.  Documented (GenSlack = 0): the number of finished generations has reached the
+\* maximum.  Code (GenSlack = 1): the counter it consults is the index of the last finished generation - 0 before the first
+\* generation and still 0 after it - so a maximum of 0 stops at once and a maximum N >= 1 stops after N + 1 generations
+LastIndex == IF gen = 0 THEN 0 ELSE gen - 1
+GenLimitReached == IF GenSlack = 0 THEN gen >= MaxGen ELSE LastIndex >= MaxGen
+Terminated == term \/ GenLimitReached
 
 Init == /\ pc = "pre" /\ pop = 0 /\ gen = 0 /\ idx = 0 /\ quota = FALSE /\ term = FALSE /\ sawTerm = FALSE
         /\ polls = 0 /\ result = "none"
